@@ -99,7 +99,9 @@ def check_call_macro(rec, case):
         return
     new = ast.Call(func=ast.Name(id="M", ctx=ast.Load()), args=[ast.Constant(value=0)], keywords=[])
     tree2 = _Replace(call, new).visit(o.tree)
-    d = astdiff(ref.tree, tree2, positions=False)
+    from .c10 import strip_empty_spec_constants  # CPython's own artefacts inside format specs (see C10)
+
+    d = astdiff(strip_empty_spec_constants(ref.tree), strip_empty_spec_constants(tree2), positions=False)
     if d is not None:
         rec.fail(dict(case, src=src), "call-macro-surroundings:" + diff_signature(d), {"path": d[0], "expected": d[2], "got": d[3], "src": src})
 
